@@ -534,3 +534,12 @@ def evaluate(t: Term, leaf: Callable[[Term], Any]) -> Any:
     if h == "mul":
         return evaluate(t[1], leaf) * evaluate(t[2], leaf)
     return leaf(t)
+
+
+def as_cases(t: Any):
+    """[(condition, value), ...] for a ('cases', ...) term or a two-way ('ite', c, a, b) term; None otherwise"""
+    if isinstance(t, tuple) and t and t[0] == "cases":
+        return list(t[1])
+    if isinstance(t, tuple) and len(t) == 4 and t[0] == "ite":
+        return [(t[1], t[2]), (not_(t[1]), t[3])]
+    return None
